@@ -1091,14 +1091,32 @@ class Spec:
         (av, cv), fails = self.eval_args([e.acc, e.ctx], env)
         fn = e.fn
         cw = fn.params[2][1][1]
-        ret_ty = fn.ret  # Either<B, A>
+        cut = getattr(self, "cut", None)
+        if cut is not None:
+            # compositional variant (C09, 16-bit counters): only the first `bits` counter bits are iterated here and one
+            # iteration is an uninterpreted function of (acc, ctx, counter prefix) - the same symbol the machine uses
+            # for the opaque sub-expression
+            bits, name = cut
+            aty, cty = fn.params[0][1], fn.params[1][1]
+
+            def step(acc, i):
+                arg = T.cat([to_bits(aty, acc), to_bits(cty, cv), T.const(bits, i)])
+                return from_bits(fn.ret, T.uf(name, arg, width(fn.ret))), T.uf(name + "_fails", arg, 1)
+
+            result, rest_fails = self.loop_first_left(fn.ret, av, list(range(1 << bits)), step)
+            return result, T.or_(fails, rest_fails)
         order = list(range(1 << cw))
         if "fw_bitrev" in self.mut:  # canary: counter halves regrouped in the wrong order
             order = [int(format(i, "0%db" % cw)[::-1], 2) for i in order]
+        result, rest_fails = self.loop_first_left(fn.ret, av, order, lambda acc, i: self.call_fn(fn, [acc, cv, T.const(cw, i)]))
+        return result, T.or_(fails, rest_fails)
+
+    def loop_first_left(self, ret_ty, av, order, step):
+        """the loop of for_while over the counter values `order`; step(acc, i) -> (Either value, fails)"""
         steps = []
         acc = av
         for i in order:
-            r, f = self.call_fn(fn, [acc, cv, T.const(cw, i)])
+            r, f = step(acc, i)
             steps.append((r, f))
             if r.tag.op == "c" and not r.tag.val and "fw_no_stop" not in self.mut:
                 break  # certainly exits here
@@ -1115,7 +1133,7 @@ class Spec:
                 continue
             result = merge(cont, result, r, ret_ty)
             rest_fails = T.or_(f, T.and_(cont, rest_fails))
-        return result, T.or_(fails, rest_fails)
+        return result, rest_fails
 
 
 # ----------------------------------------------------------------------------------------
